@@ -373,12 +373,50 @@ type PathStates struct {
 	in map[*ssa.BasicBlock]map[State]bool
 	// matched branch atoms, for evidence
 	Matched map[string][]string
+	// edge[{from,to}] = set of states carried along the CFG edge (branch facts of from's If applied)
+	edge map[[2]*ssa.BasicBlock]map[State]bool
+}
+
+// RequireOnEdge checks that every valuation carried along the edge from -> to satisfies phi (unknown atoms
+// are tried both ways); it returns the failing valuations rendered.
+func (ps *PathStates) RequireOnEdge(from, to *ssa.BasicBlock, phi func(val map[string]bool) bool) []string {
+	var bad []string
+	var states []State
+	for s := range ps.edge[[2]*ssa.BasicBlock{from, to}] {
+		states = append(states, s)
+	}
+	sort.Slice(states, func(i, j int) bool { return states[i] < states[j] })
+	for _, s := range states {
+		var unk []int
+		for i := range ps.Atoms {
+			if int8(s[i]) == U {
+				unk = append(unk, i)
+			}
+		}
+		ok := true
+		for mask := 0; mask < 1<<len(unk) && ok; mask++ {
+			val := map[string]bool{}
+			for i, a := range ps.Atoms {
+				val[a.Name] = int8(s[i]) == T
+			}
+			for k, i := range unk {
+				val[ps.Atoms[i].Name] = mask&(1<<k) != 0
+			}
+			if !phi(val) {
+				ok = false
+			}
+		}
+		if !ok {
+			bad = append(bad, ps.Render(s))
+		}
+	}
+	return bad
 }
 
 func AnalyzePaths(fn *ssa.Function, atoms []Atom) *PathStates { return analyzePaths(fn, atoms, true) }
 
 func analyzePaths(fn *ssa.Function, atoms []Atom, helpers bool) *PathStates {
-	ps := &PathStates{Fn: fn, Atoms: atoms, tm: NewTermer(), in: map[*ssa.BasicBlock]map[State]bool{}, Matched: map[string][]string{}}
+	ps := &PathStates{Fn: fn, Atoms: atoms, tm: NewTermer(), in: map[*ssa.BasicBlock]map[State]bool{}, Matched: map[string][]string{}, edge: map[[2]*ssa.BasicBlock]map[State]bool{}}
 	if len(fn.Blocks) == 0 {
 		return ps
 	}
@@ -521,6 +559,11 @@ func analyzePaths(fn *ssa.Function, atoms []Atom, helpers bool) *PathStates {
 				if ps.in[succ] == nil {
 					ps.in[succ] = map[State]bool{}
 				}
+				ek := [2]*ssa.BasicBlock{b, succ}
+				if ps.edge[ek] == nil {
+					ps.edge[ek] = map[State]bool{}
+				}
+				ps.edge[ek][ns] = true
 				if !ps.in[succ][ns] {
 					ps.in[succ][ns] = true
 					if !inWork[succ] {
